@@ -1310,3 +1310,53 @@ Definition ex_c_nosec : cv := (CDict [([97]%N, (CInt (1)%Z)); ([103]%N, (CDict [
 Lemma example_named_without_section :
   forall md, exists ks, run md 24 ex_p ex_c_nosec = Err (EMissing [] ks) /\ missing_required md ex_p ex_c_nosec = map (map K) ks.
 Proof. intros []; eexists; vm_compute; split; reflexivity. Qed.
+
+(* ---- construction history: link_arguments attempts --------------------------------------------------------------- *)
+Lemma with_links_rejected p ls : (forall l, In l ls -> l_ok l = false) -> with_links p ls = p.
+Proof.
+  unfold with_links. revert p. induction ls as [|l t IH]; intros p H; [reflexivity|].
+  simpl. unfold apply_link at 2. rewrite (H l (or_introl eq_refl)). apply IH. intros; apply H; right; assumption.
+Qed.
+
+Lemma apply_link_sub p l : p_sub (apply_link p l) = p_sub p.
+Proof. unfold apply_link. destruct (l_ok l); reflexivity. Qed.
+
+Lemma unrequire_args_names path fs : map fst (unrequire_args path fs) = map fst fs.
+Proof. destruct path; [reflexivity|]. unfold unrequire_args. rewrite map_map. reflexivity. Qed.
+
+Lemma apply_link_names p l : map fst (p_args (apply_link p l)) = map fst (p_args p).
+Proof. unfold apply_link. destruct (l_ok l); [apply unrequire_args_names|reflexivity]. Qed.
+
+Lemma with_links_sub p ls : p_sub (with_links p ls) = p_sub p.
+Proof.
+  unfold with_links. revert p. induction ls as [|l t IH]; intros p; [reflexivity|].
+  simpl. rewrite IH. apply apply_link_sub.
+Qed.
+
+Lemma with_links_names p ls : map fst (p_args (with_links p ls)) = map fst (p_args p).
+Proof.
+  unfold with_links. revert p. induction ls as [|l t IH]; intros p; [reflexivity|].
+  simpl. rewrite IH. apply apply_link_names.
+Qed.
+
+Lemma forallb_fst {A} (g : str -> bool) (l : list (str * A)) : forallb (fun kd => g (fst kd)) l = forallb g (map fst l).
+Proof. induction l as [|x t IH]; [reflexivity|]. simpl. rewrite IH. reflexivity. Qed.
+
+Lemma wf_with_links p ls : wf_parser (with_links p ls) = wf_parser p.
+Proof.
+  unfold wf_parser. rewrite with_links_sub. destruct (p_sub p) as [sb|]; [|reflexivity].
+  rewrite (forallb_fst (fun k => negb (str_eqb k (s_dest sb)) && negb (mem_str k (map fst (s_map sb)))) (p_args (with_links p ls))).
+  rewrite (forallb_fst (fun k => negb (str_eqb k (s_dest sb)) && negb (mem_str k (map fst (s_map sb)))) (p_args p)).
+  rewrite with_links_names. reflexivity.
+Qed.
+
+(* required keys of a parser built with link_arguments attempts: whatever the history, an accepted configuration has every
+   required key of the parser as the history left it; and attempts that were all rejected leave every original key required *)
+Theorem accept_required_with_links md fuel p ls cfg :
+  wf_parser p = true -> run md fuel (with_links p ls) cfg = Ok -> missing_required md (with_links p ls) cfg = [].
+Proof. intros W H. apply (accept_required md fuel); [rewrite wf_with_links; exact W|exact H]. Qed.
+
+Theorem accept_required_after_rejected_links md fuel p ls cfg :
+  (forall l, In l ls -> l_ok l = false) ->
+  wf_parser p = true -> run md fuel (with_links p ls) cfg = Ok -> missing_required md p cfg = [].
+Proof. intros R W H. rewrite (with_links_rejected p ls R) in H. exact (accept_required md fuel p cfg W H). Qed.
